@@ -96,7 +96,9 @@ type In struct {
 	Data   []byte
 	SetSz  bool
 	Size   uint64
-	SetTm  bool
+	SetTm  bool // set both times
+	SetAt  bool // set atime only
+	SetMt  bool // set mtime only
 	How    int // WRITE stable_how / CREATE mode
 	Cookie uint64
 	BadCookie bool // a cookie the server never issued: any reply is acceptable
